@@ -1,0 +1,14 @@
+//go:build verif && gojq_debug
+
+package gojq
+
+import "io"
+
+// VerifCountInstructions turns on the interpreter's own per-instruction trace (debug.go, build tag
+// gojq_debug: env.debugState is called once at the top of every executed instruction, before the
+// context poll) and sends it to w.  The harness passes a writer that counts the trace lines: an
+// instruction counter that is independent of ctx.Done().
+func VerifCountInstructions(w io.Writer) {
+	debug = w != nil
+	debugOut = w
+}
